@@ -322,12 +322,33 @@ def case(cmd, big, pos, mode, v):
     return "%s g- %s %d %s %s" % (cmd, "B" if big else "L", pos, mode, text(v))
 
 
+def hexrle(b):
+    """hex token with run-length segments (HEX*N, separated by '.') for long runs of one byte"""
+    if len(b) < 600:
+        return G.hext(b)
+    segs, i = [], 0
+    while i < len(b):
+        j = i
+        while j < len(b) and b[j] == b[i]:
+            j += 1
+        if j - i >= 64:
+            segs.append("%02x*%d" % (b[i], j - i))
+            i = j
+        else:
+            k = i
+            while k < len(b) and not (k + 64 <= len(b) and len(set(b[k:k + 64])) == 1):
+                k += 1
+            segs.append(b[i:k].hex())
+            i = k
+    return ".".join(segs)
+
+
 def case_de_v(big, pos, nfds, b, cmd="de"):
-    return "%s g- %s %d %d v %s" % (cmd, "B" if big else "L", pos, nfds, G.hext(b))
+    return "%s g- %s %d %d v %s" % (cmd, "B" if big else "L", pos, nfds, hexrle(b))
 
 
 def case_de_s(big, pos, nfds, sig, b, cmd="de"):
-    return "%s g- %s %d %d s %s %s" % (cmd, "B" if big else "L", pos, nfds, sig or "-", G.hext(b))
+    return "%s g- %s %d %d s %s %s" % (cmd, "B" if big else "L", pos, nfds, sig or "-", hexrle(b))
 
 
 def case_de_t(big, pos, name, b, cmd="de"):
